@@ -88,8 +88,10 @@ PROPS["C13"] = dict(
 )
 
 PROPS["C14"] = dict(
-    modules=["Proofs.C14"],
-    theorems=["Goflow.C14.key_function", "Goflow.C14.no_key"],
+    modules=["Proofs.C14", "Proofs.C14Bits"],
+    theorems=["Goflow.C14.key_function", "Goflow.C14.no_key", "Goflow.C14.custom_varint_readback", "Goflow.C14.custom_bytes_readback",
+              "Goflow.C14.mapCustom_varint", "Goflow.C14.getBytes_total", "Goflow.C14.extract_aligned", "Goflow.C14.getBytes_aligned",
+              "Goflow.C14.getBytes_eq_extract_aligned"],
     generators=[dict(name="C14", quick=42, thorough=1260)],
     harness=["impl"],
 )
